@@ -52,9 +52,13 @@ def evaluate(P, ctx, cases, tag):
 
 
 def shrink_case(P, ctx, case, check, rounds=40):
-    """Greedy shrinking: keep any smaller variant that still fails `check`."""
+    """Greedy shrinking: keep any smaller variant that still fails `check` (time-boxed)."""
     cur = case
+    t0 = time.time()
+    budget = 60 if ctx.tier == "quick" else 300
     for r in range(rounds):
+        if time.time() - t0 > budget:
+            break
         cands = list(P.shrink(cur))[:400]
         if not cands:
             break
@@ -183,8 +187,11 @@ def run(P, ctx, a):
         # model and implementation disagree but the specification was not seen to fail:
         # search the neighbourhood for a failing input (monitor only)
         found = None
+        t_search = time.time()
         for i in corr_fail[:5]:
-            neigh = list(P.neighbours(cases[i], rng))[:2000]
+            if time.time() - t_search > (90 if tier == "quick" else 600):
+                break
+            neigh = list(P.neighbours(cases[i], rng))[:(300 if tier == "quick" else 2000)]
             if not neigh:
                 continue
             try:
